@@ -303,8 +303,10 @@ def validate_lin(lines, *, module="StreamsLin", nproc=4, timeout=600, max_rej=12
 LEAK_OVERLAY = {"compose/zz_verif_leak_test.go": os.path.join(vlib.HARNESS, "compose", "zz_verif_leak_test.go")}
 
 
-def gen_run_shapes(mode, n, max_edges, branch=True, *, timeout=300, simulate=None, depth=None, seed=None):
-    cfg = cfg_consts({"N": n, "MaxEdges": max_edges, "Mode": mode, "AllowBranch": branch}) + "INIT GenInit\nNEXT GenNext\nINVARIANT Emit\nCHECK_DEADLOCK FALSE\n"
+def gen_run_shapes(mode, n, max_edges, branch=True, *, max_br=None, timeout=300, simulate=None, depth=None, seed=None):
+    if max_br is None:
+        max_br = 1 if mode == "wf" else 2         # several branches on one node: graph modes only (a workflow branch carries no data)
+    cfg = cfg_consts({"N": n, "MaxEdges": max_edges, "Mode": mode, "AllowBranch": branch, "MaxBr": max_br}) + "INIT GenInit\nNEXT GenNext\nINVARIANT Emit\nCHECK_DEADLOCK FALSE\n"
     run = vlib.tlc("StreamRun", "rgen.cfg", files={"rgen.cfg": cfg}, workers=2, timeout=timeout, simulate=simulate, depth=depth, seed=seed)
     vlib.tlc_must_pass(run, "streaming-run scenario generation (%s, %d nodes)" % (mode, n))
     seen, out = set(), []
@@ -355,6 +357,21 @@ def decorate_run(shapes, rnd, *, prefix):
                 n["cap"] = rnd.choice([0, 1])
             sc["read"] = rnd.choice([1, 2, 2])
             sc["handler"] = rnd.choice(["none", "none", "close"])
+        # several branches on one node: most of the time they select the SAME target (when their end sets overlap), the node produces more
+        # chunks than the buffers hold and the caller stops early, so that a copy routed twice to one successor must be released
+        if len(sc["branch"]) >= 2:
+            common = set(sc["branch"][0]["ends"])
+            for b in sc["branch"][1:]:
+                common &= set(b["ends"])
+            if common and rnd.random() < 0.75:
+                tgt = rnd.choice(sorted(common))
+                for b in sc["branch"]:
+                    b["pick"] = b["ends"].index(tgt)
+            src = next(n for n in nodes if n["name"] == sc["branch"][0]["from"])
+            src["k"] = rnd.choice([4, 6, 8])
+            src["cap"] = rnd.choice([0, 1])
+            sc["read"] = rnd.choice([0, 1, 2, 2, -1])
+            sc["handler"] = rnd.choice(["none", "none", "close", "read1"])
         if is_chain(sh) and rnd.random() < 0.8:
             prods = [n for n in nodes if n["kind"] == "S"]
             if prods:
